@@ -259,7 +259,7 @@ class C01(Check):
                 vals = norm(src[0].target if isinstance(src[0], ast.AnnAssign) else src[0].targets[0])
                 kw = {k.arg: norm(k.value) for k in src[0].value.keywords}
                 zipped = [s for s in walk_no_nested(fn) if isinstance(s, (ast.Assign, ast.AnnAssign)) and norm(getattr(s, "target", None) or s.targets[0]) == kw.get("variables")]
-                zt = norm(zipped[0].value) if zipped else ""
+                zt = norm(zipped[0].value) if zipped else (kw.get("variables") or "")
                 if kw.get("time") == "time" and zt == "dict(zip(cache.var_names, variables, strict=True))":
                     self.holds("A1", MOD, qn, "values-at-supplied-state", src[0], "values = _get_args(zip(var_names, positional input, strict), time=time)")
                 else:
